@@ -54,7 +54,7 @@ man = {
     "hooks": {
         "guard": "MCHAP_VERIF_INJECT",
         "enable": "no source hooks in /repo: monitors attach from /verif by wrapping module-level names of the real modules (dispatcher.py_func + replaced callees), by NUMBA_DISABLE_JIT=1 runs, and by inject/sitecustomize.py placed on PYTHONPATH of CLI subprocesses, which is inert unless MCHAP_VERIF_INJECT is set",
-        "baseline_off_cmd": "cd /repo && env -u MCHAP_VERIF_INJECT /venv/bin/python -m pytest -ra -q -p no:cacheprovider --timeout=900 --continue-on-collection-errors",
+        "baseline_off_cmd": "rm -rf /verif/.cache/baseline-numba && cd /repo && env -u MCHAP_VERIF_INJECT NUMBA_CACHE_DIR=/verif/.cache/baseline-numba /venv/bin/python -m pytest -ra -q -p no:cacheprovider --timeout=900 --continue-on-collection-errors",
         "source_commits": [],
         "add_only": True,
     },
